@@ -259,7 +259,8 @@ Next ==
   \/ \E id \in IdsN, v \in StrN, z \in BOOLEAN : Define("name", id, v, z)
   \/ \E id \in IdsP, v \in StrP, z \in BOOLEAN : Define("pfx", id, v, z)
   \/ \E id \in IdsD, v \in StrD, z \in BOOLEAN : Define("dt", id, v, z)
-  \/ \E k \in {"def", "misc", "stmt", "fault"} : Go(k)
+  \/ \E k \in {"def", "misc", "stmt"} : Go(k)
+  \/ (Go("fault") /\ \E c \in Faults : \E row \in FaultRows(c) : RdStep(rd, row).err # "")   \* only where some catalogued fault is possible
   \/ \E k \in {"iri", "bn", "lit", "qt", "dg"} : Kind(k)
   \/ Elide \/ EndStmt
   \/ \E w \in IriForms \cup LitForms \cup BnForms \cup {[t |-> "dg"]} : Pick(w) \/ PickInner(w) \/ GraphStart(w)
